@@ -62,6 +62,13 @@ func NewUnpackInfo(dst string, header *tar.Header) (UnpackInfo, error) {
 	// symlinks.
 	currentPath := dst // Start at the root of the unpacked tarball.
 	components := strings.Split(header.Name, "/")
+	// Walk the components of the cleaned path that will actually be written
+	// (relative to dst) rather than the raw name: in a raw name such as
+	// "missing/../link/file" the walk would stop at "missing" and never look
+	// at "link".
+	if rel, err := filepath.Rel(dst, target); err == nil {
+		components = strings.Split(filepath.ToSlash(rel), "/")
+	}
 
 	for i := 0; i < len(components)-1; i++ {
 		currentPath = filepath.Join(currentPath, components[i])
